@@ -10,7 +10,9 @@ A small *symbolic reader* of straight-line NumPy code, working on the source tex
   * `canon(e)` puts an expression in a normal form in which harmless rewrites coincide: operands of `+`, `*`, `and`,
     `or`, `==`, `!=` sorted (not for list / argument-list concatenation), `a > b` and `b < a` identified (a numeric literal always on the right), `np.greater(a, b)`
     and friends read as comparisons, `np.logical_and/or` as `and`/`or`, `1.0` as `1`, keyword arguments sorted,
-    `columnize(...)` plumbing dropped.
+    `columnize(...)` plumbing dropped; NumPy synonyms identified: `x & y` ≡ `np.logical_and(x, y)` on boolean
+    expressions, `a @ b` ≡ `a.dot(b)` ≡ `np.dot(a, b)`, `np.vstack(L)` ≡ `np.concatenate(L[, axis=0])` (printed `_vcat(L)`),
+    `lambda a, b: f(a, b)` ≡ `f`.
   * `match(pattern, e)` / `find(pattern, e)`: structural matching against a pattern written as Python source with
     metavariables `_A`, `_B`, … .
   * `cmp_parts`, `affine`, `as_int`: read an operator / the numeric literals out of a matched piece.
@@ -217,9 +219,30 @@ class Sym:
             path = _subst(path, env)                           # index expressions read the current bindings
             env[root.id] = _call("_set", copy.deepcopy(old), path, val)
 
+    @staticmethod
+    def _is_check(st):
+        """an expression statement `vg.shape.check(...)` / `check_shape_any(...)` / `vg.shape.check_value(...)`: a pure
+        validation whose position among its neighbours of the same kind is immaterial"""
+        if not (isinstance(st, ast.Expr) and isinstance(st.value, ast.Call)):
+            return False
+        f = _u(st.value.func)
+        return f.split(".")[-1] in ("check_shape_any", "check_value", "check_value_any") or f.endswith("shape.check")
+
     def _run(self, stmts, env, conds):
         """-> (env, conds, terminated)"""
+        run = []          # a maximal run of consecutive check statements: recorded as a sorted multiset
+
+        def flush():
+            self.skipped.extend(sorted(run))
+            del run[:]
         for st in stmts:
+            if self._is_check(st):
+                n0 = len(self.skipped)
+                self._skip("expr", st.value, env)
+                run.extend(self.skipped[n0:])
+                del self.skipped[n0:]
+                continue
+            flush()
             if isinstance(st, ast.Assign):
                 val = _subst(st.value, env)
                 for t in st.targets:
@@ -283,6 +306,7 @@ class Sym:
                     self.skipped.append(type(st).__name__.lower() + " " + ast.unparse(st).replace("\n", "; "))
                 except Exception:  # noqa: BLE001
                     self.skipped.append(type(st).__name__.lower())
+        flush()
         return env, conds, False
 
     # -- queries
@@ -412,6 +436,36 @@ def _build_product(coef, factors):
     return ast.BinOp(left=_const(coef), op=ast.Mult(), right=acc)
 
 
+_BOOL_CALLS = re.compile(r"(^|_)(is|are|has|contains|any|all|isclose|isnan|isfinite|isinstance|allclose)(_|$)|^logical_")
+
+
+def _is_boolish(node):
+    """a comparison / boolean combination / predicate call (so that `&`, `|` on it mean `and`, `or`)"""
+    if isinstance(node, (ast.Compare, ast.BoolOp)):
+        return True
+    if isinstance(node, ast.UnaryOp) and isinstance(node.op, (ast.Not, ast.Invert)):
+        return _is_boolish(node.operand)
+    if isinstance(node, ast.BinOp) and isinstance(node.op, (ast.BitAnd, ast.BitOr)):
+        return _is_boolish(node.left) and _is_boolish(node.right)
+    if isinstance(node, ast.Call):
+        f = node.func
+        name = f.attr if isinstance(f, ast.Attribute) else (f.id if isinstance(f, ast.Name) else "")
+        return bool(_BOOL_CALLS.search(name))
+    return False
+
+
+def _np_call(name, *args):
+    return ast.Call(func=ast.Attribute(value=ast.Name(id="np", ctx=ast.Load()), attr=name, ctx=ast.Load()),
+                    args=list(args), keywords=[])
+
+
+def _evidently_flat(arg):
+    """the argument of vstack / concatenate is a literal list with an operand that is a list / tuple / number literal"""
+    if isinstance(arg, (ast.List, ast.Tuple)):
+        return any(isinstance(e, (ast.List, ast.Tuple)) or _num(e) is not None for e in arg.elts)
+    return False
+
+
 def _is_columnize_item(node, i):
     return (isinstance(node, ast.Call) and isinstance(node.func, ast.Name) and node.func.id == "_item"
             and len(node.args) == 3 and isinstance(node.args[0], ast.Call)
@@ -453,8 +507,27 @@ class _Canon(ast.NodeTransformer):
             return n
         return self.generic_visit(n)
 
+    def visit_Lambda(self, n):
+        n = self.generic_visit(n)
+        # `lambda a, b: f(a, b)` reads as `f`
+        a = n.args
+        ps = [x.arg for x in a.args]
+        b = n.body
+        if ps and not (a.vararg or a.kwarg or a.kwonlyargs or a.posonlyargs or a.defaults) and isinstance(b, ast.Call) \
+                and not b.keywords and [x.id if isinstance(x, ast.Name) else None for x in b.args] == ps \
+                and not any(isinstance(x, ast.Name) and x.id in ps for x in ast.walk(b.func)):
+            return b.func
+        return n
+
     def visit_BinOp(self, n):
         n = self.generic_visit(n)
+        # `x & y` / `x | y` between comparisons / boolean expressions is `np.logical_and` / `np.logical_or`
+        if isinstance(n.op, (ast.BitAnd, ast.BitOr)) and _is_boolish(n.left) and _is_boolish(n.right):
+            return self.visit_BoolOp(ast.BoolOp(op=ast.And() if isinstance(n.op, ast.BitAnd) else ast.Or(),
+                                                values=[n.left, n.right]))
+        # `a @ b` is `np.dot(a, b)`
+        if isinstance(n.op, ast.MatMult):
+            return _np_call("dot", n.left, n.right)
         if isinstance(n.op, ast.Add) and any(isinstance(x, (ast.List, ast.Tuple, ast.ListComp)) for x in (n.left, n.right)):
             return n      # list concatenation keeps its order
         if isinstance(n.op, (ast.Add, ast.Sub)):
@@ -514,6 +587,18 @@ class _Canon(ast.NodeTransformer):
             return n.args[0].args[0]
         if _is_columnize_item(n.func, 2) and len(n.args) == 1 and not n.keywords:
             return n.args[0]
+        # `a.dot(b)` is `np.dot(a, b)`  (`vg.dot` is the row-wise dot product: something else)
+        if isinstance(n.func, ast.Attribute) and n.func.attr == "dot" and len(n.args) == 1 and not n.keywords \
+                and _u(n.func.value) not in ("np", "numpy", "vg"):
+            return _np_call("dot", n.func.value, n.args[0])
+        # stacking rows: `np.vstack(L)`, `np.concatenate(L)`, `np.concatenate(L, axis=0)` read as `_vcat(L)` — unless an
+        # operand is evidently not 2-D (a list / tuple / number literal: there `vstack` and `concatenate` differ)
+        if isinstance(n.func, ast.Attribute) and isinstance(n.func.value, ast.Name) and n.func.value.id in ("np", "numpy") \
+                and len(n.args) == 1 and not _evidently_flat(n.args[0]):
+            kws = {k.arg: k.value for k in n.keywords}
+            if (n.func.attr == "vstack" and not kws) or \
+                    (n.func.attr == "concatenate" and (not kws or (set(kws) == {"axis"} and _num(kws["axis"]) == 0))):
+                return _call("_vcat", n.args[0])
         n.keywords = sorted(n.keywords, key=lambda k: k.arg or "")
         return n
 
